@@ -122,6 +122,10 @@ def _ok_blocks(body):
     return out
 
 
+def _has_call(t, suffix):
+    return flow.term_has(t, lambda q: q[0] == "call" and q[1].endswith(suffix))
+
+
 def result_of(body, adt_suffix):
     t = body.locals[0].ty
     return t.k == "adt" and t.name == "std::result::Result" and t.args and \
@@ -153,9 +157,32 @@ def rule_tables(facts):
                    "%s (%s)" % (short(b.name), b.blocks[bb].term.span))
         else:
             r1.ok("switch", {"fn": short(b.name), "accepted_ids": ok_ids})
-    fid = [b for b in facts.bodies if b.kind in ("Fn", "AssocFn") and b.arg_count == 1 and
-           b.locals[1].ty.k == "uint" and b.locals[1].ty.bits == 64 and result_of(b, "FilterId")]
-    r2.need("function u64 -> Result<FilterId>", len(fid) >= 1)
+    fid = [b for b in facts.bodies if b.kind in ("Fn", "AssocFn") and b.promoted is None and b.arg_count == 1 and
+           b.locals[1].ty.k == "uint" and result_of(b, "FilterId")]
+    r2.need("function uint -> Result<FilterId>", len(fid) >= 1)
+    # the id handed to the classifier is the multi-byte value as read (filter ids have up to 63 bits): no narrowing on the way
+    from rules import C06 as _c06
+    for fb in fid:
+        for b in facts.bodies:
+            if b.promoted is not None:
+                continue
+            tmc = None
+            for blk in b.calls():
+                cal = blk.term.callee
+                if cal is None or not cal.target().local or cal.target().defk != fb.defk:
+                    continue
+                tmc = tmc or Terms(b)
+                a = tmc.of_operand(blk.term.args[0])
+                r2.sites += 1
+                lo = _c06.lossy_ops(a)
+                if lo:
+                    r2.bad("%s|id-narrowed" % short(b.name), "the filter id is altered before it is classified (%s): ids that differ only in the "
+                           "dropped bits are taken for a supported filter" % lo[0][:80], "%s (%s)" % (short(b.name), blk.term.span))
+                elif not (_has_call(a, "get_multibyte")):
+                    r2.bad("%s|id-source" % short(b.name), "the classified filter id is not the multi-byte value read from the header: %s"
+                           % flow.show(a)[:80], "%s (%s)" % (short(b.name), blk.term.span), "unverifiable")
+                else:
+                    r2.ok("provenance", {"fn": short(b.name), "id": "get_multibyte value, unaltered"})
     for b in fid:
         r2.sites += 1
         a = accept_set(b)
